@@ -8,7 +8,7 @@ import AffVerif.Props.C01
 * `C18_history` — for every sequence of builder calls, accepted or rejected: the current shape is the output
   dimension of the network built so far (`netDim`), every queued operator carries the output dimension of the
   network up to and including it, and the queued layers are dimension-compatible (`Compat`).
-* `C18_accepted_distills` — an accepted architecture without heads satisfies the hypothesis `LayersOK` of the
+* `C18_accepted_distills` — an accepted architecture (heads included) satisfies the hypothesis `LayersOK` of the
   distillation theorem (C01): no dimension assertion of the builder can fail, and the distilled tree is the network.
 * `C18_extract_range`, `C18_split` — `extract_range(s,e)` is the slice of the queue with the shapes of the prefix
   networks; the two halves of a split chain (`head.current_shape = tail.input_shape`) and compose to the whole.
@@ -205,36 +205,29 @@ theorem C18_history (n : Nat) (calls : List (Call α)) : (calls.foldl Arch.step 
 
 /-! ### accepted architectures distill -/
 
-def headFree : List (Layer α) → Prop
-  | [] => True
-  | .argmax :: _ => False
-  | .classChar _ :: _ => False
-  | _ :: ls => headFree ls
-
 def linearWF : List (Layer α) → Prop
   | [] => True
   | .linear a :: ls => a.WF ∧ linearWF ls
   | _ :: ls => linearWF ls
 
-theorem layersOK_of_compat (d : Nat) (ls : List (Layer α)) (hc : Compat d ls) (hh : headFree ls) (hw : linearWF ls) :
+theorem layersOK_of_compat (d : Nat) (ls : List (Layer α)) (hc : Compat d ls) (hw : linearWF ls) :
     LayersOK d ls := by
   induction ls generalizing d with
   | nil => trivial
   | cons l ls ih =>
     cases l with
-    | linear a => exact ⟨hw.1, hc.1, ih _ hc.2 hh hw.2⟩
-    | relu i => exact ⟨hc.1, ih _ hc.2 hh hw⟩
-    | leakyRelu i a => exact ⟨hc.1, ih _ hc.2 hh hw⟩
-    | hardTanh i => exact ⟨hc.1, ih _ hc.2 hh hw⟩
-    | hardSigmoid i => exact ⟨hc.1, ih _ hc.2 hh hw⟩
-    | argmax => exact absurd hh (by simp [headFree])
-    | classChar c => exact absurd hh (by simp [headFree])
+    | linear a => exact ⟨hw.1, hc.1, ih _ hc.2 hw.2⟩
+    | relu i => exact ⟨hc.1, ih _ hc.2 hw⟩
+    | leakyRelu i a => exact ⟨hc.1, ih _ hc.2 hw⟩
+    | hardTanh i => exact ⟨hc.1, ih _ hc.2 hw⟩
+    | hardSigmoid i => exact ⟨hc.1, ih _ hc.2 hw⟩
+    | argmax => exact ⟨hc.1, ih _ hc.2 hw⟩
+    | classChar c => exact ⟨hc.1, ih _ hc.2 hw⟩
 
-/-- every accepted architecture (no heads, well-formed weight matrices) distills: the builder's dimension assertions
+/-- every accepted architecture (well-formed weight matrices) distills: the builder's dimension assertions
     hold (`LayersOK`) and the distilled tree computes the network at every input -/
 theorem C18_accepted_distills {σ : Type} (tol : α) (O : Oracles σ α) (hlp : InfeasibleSound O.lp) (k : NetConsts α)
     (n : Nat) (calls : List (Call α)) (s : σ) (x : List α) (hx : x.length = n)
-    (hh : headFree ((calls.foldl Arch.step (Arch.new n : Arch α)).ops.map (·.1)))
     (hw : linearWF ((calls.foldl Arch.step (Arch.new n : Arch α)).ops.map (·.1))) :
     let layers := (calls.foldl Arch.step (Arch.new n : Arch α)).ops.map (·.1)
     LayersOK n layers ∧
@@ -244,8 +237,8 @@ theorem C18_accepted_distills {σ : Type} (tol : α) (O : Oracles σ α) (hlp : 
   have hin : (calls.foldl Arch.step (Arch.new n : Arch α)).inputShape = n := foldl_inputShape calls _
   have hok : LayersOK n layers := by
     have := hinv.compat; rw [hin] at this
-    exact layersOK_of_compat n layers this hh hw
-  exact ⟨hok, C01_distill_faithful_total_partial tol O hlp k n layers s hok x hx⟩
+    exact layersOK_of_compat n layers this hw
+  exact ⟨hok, C01_distill_faithful_total tol O hlp k n layers s hok x hx⟩
 
 /-! ### `extract_range` -/
 
